@@ -30,7 +30,7 @@ func (b RawBytes) ReadAt(p []byte, offset int64) (n int, err error) {
 	copy(p, b[offset:])
 	n = xmath.Min(
 		int(int64(len(b))-offset),
-		len(b),
+		len(p),
 	)
 	return
 }
